@@ -81,7 +81,10 @@ def signature(case, idx, verdict):
 
 
 def check(ctx):
-    vlib.prove(ctx, ["KrillModel.Props.C15"])
+    # bodies of TrustAnchorProxy::process_signer_response / process_make_signer_request regenerated from the source;
+    # C15Src: generated definitions = the model functions response_accepted_iff / one_open_request are about
+    vlib.translate(ctx, [("pure_fns:C15", "PureFns.lean")])
+    vlib.prove(ctx, ["KrillModel.Props.C15", "KrillModel.Props.C15Src"])
     pc.private_kmodel(ctx)
     found = False
     if vlib.build_harness(ctx, ["proto"]):
@@ -135,5 +138,5 @@ MANIFEST = {
             "made while the request was open, fixed 764cd480), F-C15-2 open (`proxy signer update` with a re-initialised "
             "signer restarts the manifest number).",
     "technique": "Lean 4 proof (iff characterisations, inductive invariant over op histories with ghost counters, symbolic "
-                 "Dolev-Yao network) + lock-step correspondence on the real aggregates + oracle on observed events",
+                 "Dolev-Yao network) + source translator (bodies of the proxy's process_signer_response / process_make_signer_request = the model: gen_process_signer_response_eq_model) + lock-step correspondence on the real aggregates + oracle on observed events",
 }
